@@ -150,10 +150,10 @@ void TimePeriod::RemoveSegment(double begin, double end)
 		}
 
 		/* Adjust the begin/end timestamps so as to not overlap with the specified range. */
-		if (segment->Get("begin") > begin && segment->Get("begin") < end)
+		if (segment->Get("begin") >= begin && segment->Get("begin") < end)
 			segment->Set("begin", end);
 
-		if (segment->Get("end") > begin && segment->Get("end") < end)
+		if (segment->Get("end") > begin && segment->Get("end") <= end)
 			segment->Set("end", begin);
 
 		newSegments->Add(segment);
